@@ -646,6 +646,10 @@ class MementoFunctionHashRule(HashRule):
         # Add transitive dependencies:
         memento_fn = self.memento_fn
 
+        # The plain helper functions that matter below this function are those of its own
+        # package, which is not necessarily the package of the function at the root.
+        package_scope = {inspect.getmodule(memento_fn.src_fn).__package__}
+
         for dep in memento_fn.required_dependencies:
             HashRule._visit_dependency(
                 result=result,
